@@ -216,14 +216,22 @@ theorem C14_ts_instant_preserved (Y m d H Mi S : Nat) (ms : Option Nat) (neg : B
     simpa only [hr] using this
   · exact httpdate_roundtrip ⟨rfc3339Instant Y m d H Mi S neg oh om, fracNanosOf ms, offsetSeconds neg oh om⟩ h1 h2
 
-/-- EpochSeconds, whole seconds: for every instant from 1970 to the end of year 9999 that is a whole
-    number of seconds, `format` writes the decimal integer and `parse` gives the instant back.
+/-- EpochSeconds, whole seconds — the full statement: for every instant of the years 1 … 9999 that is
+    a whole number of seconds, `format` writes a text that `parse` reads back as that instant.
+    FALSE of the current code for instants before 1970 (`Findings/C14.lean`, finding F-dto-4). -/
+def C14_ts_epoch_whole_roundtrip_full : Prop :=
+  ∀ (unix off : Int), -62135596800 ≤ unix → unix ≤ 253402300799 →
+    ∃ txt, formatEpochWhole ⟨unix, 0, off⟩ = some txt ∧ parseEpochSeconds txt = some ⟨unix, 0, 0⟩
+
+/-- … the part that holds: excluded region `unix < 0` (instants before 1970), i.e. for every
+    whole-second instant from 1970 to the end of year 9999 `format` writes the decimal integer and
+    `parse` gives the instant back.
     (An instant with a fraction is written through `f64` arithmetic and `Display`, which the
-    proof-side model does not describe: correspondence only, see the driver's float model. Instants
-    before 1970 are written with a minus sign that `parse` refuses: finding F-dto-4.) -/
-theorem C14_ts_epoch_whole_roundtrip (unix off : Int) (h0 : 0 ≤ unix) (h1 : unix ≤ 253402300799) :
+    proof-side model does not describe: correspondence only, through the driver's exact float
+    model; see also finding F-dto-5.) -/
+theorem C14_ts_epoch_whole_roundtrip_partial (unix off : Int) (h0 : ¬ unix < 0) (h1 : unix ≤ 253402300799) :
     ∃ txt, formatEpochWhole ⟨unix, 0, off⟩ = some txt ∧ parseEpochSeconds txt = some ⟨unix, 0, 0⟩ :=
-  epoch_whole_roundtrip unix off h0 h1
+  epoch_whole_roundtrip unix off (by omega) h1
 
 /-- EpochSeconds, parsing: decimal seconds with a millisecond fraction are decoded to the value they denote -/
 theorem C14_ts_epoch_parse_ms (secs ms : Nat) (h1 : secs ≤ 253402300799) (h2 : ms < 1000) :
@@ -236,5 +244,6 @@ example : rfc3339Instant 2020 1 1 8 0 0 false 8 0 = 1577836800 := by decide
 example : rfc3339Text 2020 1 1 8 0 0 none false 8 0 =
     [50, 48, 50, 48, 45, 48, 49, 45, 48, 49, 84, 48, 56, 58, 48, 48, 58, 48, 48, 43, 48, 56, 58, 48, 48] := by decide
 example : (-62135596800 : Int) ≤ 1577836800 ∧ (1577836800 : Int) ≤ 253402300799 := by decide
+example : ¬ (1515531081 : Int) < 0 ∧ (1515531081 : Int) ≤ 253402300799 := by decide
 
 end S3V.C14
